@@ -160,7 +160,7 @@ def run_shard(ctx, shard):
     circles = ctx.extra['circles']
     for i in range(shard['n']):
         case = {'scale': rng.choice([8.0, 8.0, 1.0, 0.5, 20.0])}
-        kind = rng.choice(['box', 'rbox', 'circle', 'nested', 'outside', 'legend_only', 'two', 'multi', 'circle_in_box'])
+        kind = rng.choice(['box', 'rbox', 'circle', 'nested', 'outside', 'legend_only', 'two', 'multi', 'circle_in_box', 'staggered'])
         tags = rng.sample(NAMES, rng.randint(1, 3))
         tag = '{' + ','.join(tags) + '}'
         other = rng.choice(['', 'hi', 'p q', 'label'])
@@ -238,6 +238,25 @@ def run_shard(ctx, shard):
             rows = [x + '  ' + y for x, y in zip(a, b)]
             off = len(a[0]) + 2
             case.update(body=rows, shapes=[('rect', (0, 0, len(tag) + 3, 2), tags), ('rect', (off, 0, len(t2[0]) + 5, 2), t2)], absent=['{'], present=[], kind=kind)
+        elif kind == 'staggered':
+            # a box with caption rows glued on top of it (caption and box are one group that starts at the caption)
+            # and, to its right, a box that starts higher up: its tag lies above the top border of the first box
+            cap = [rng.choice(['abc', 'hi', 'kept', 'large']) for _ in range(rng.randint(2, 3))]
+            a = gen.box(len(tag) + 2, rng.randint(1, 2), inner={0: ' ' + tag})
+            left = cap + a
+            t2 = rng.sample(NAMES, 1)
+            btag = '{' + t2[0] + '}'
+            hb = rng.randint(len(cap), len(cap) + 3)
+            b = gen.box(len(btag) + 2, hb, inner={rng.randrange(0, len(cap) - 1): ' ' + btag})
+            wl = max(len(r) for r in left)
+            gap = rng.randint(2, 4)
+            rows = []
+            for y in range(max(len(left), len(b))):
+                l = left[y] if y < len(left) else ''
+                r = b[y] if y < len(b) else ''
+                rows.append((l.ljust(wl + gap) + r).rstrip())
+            case.update(body=rows, shapes=[('rect', (0, len(cap), len(tag) + 3, len(a) - 1), tags), ('rect', (wl + gap, 0, len(btag) + 3, hb + 1), t2)],
+                        absent=['{'], present=cap, kind=kind)
         elif kind == 'outside':
             rows = gen.box(6, 1) + ['', ' ' + tag]
             case.update(body=rows, shapes=[('rect', (0, 0, 7, 2), [])], absent=[], present=[tag], kind=kind)
